@@ -7,6 +7,7 @@ identified by residue id (node keys are abstracted).
 """
 import importlib
 import json
+import zlib
 import os
 from pathlib import Path
 
@@ -154,6 +155,20 @@ def file_lines(inp):
     return out
 
 
+# free text of comment lines: words that contain other spellings of the alphabet keywords (they say nothing about the alphabet)
+HDR_WORDS = ["test", "sequence", "internal", "ssdna", "Arnaud", "protein", "Dna", "rna-binding", "T4", "external", "mRna", "Protein", "dsDna", "kinase"]
+
+
+def header_text(inp, salt=0):
+    """comment text of a .fasta / .ig file: the record's own "hdr" (list of characters) if it has one, otherwise a text made of the
+    alphabet keyword and distractor words picked deterministically from the record"""
+    if inp.get("hdr"):
+        return "".join(inp["hdr"])
+    h = zlib.crc32(json.dumps([inp.get("toks"), inp.get("lines"), salt], sort_keys=True, default=list).encode())
+    w = [HDR_WORDS[(h >> (4 * k)) % len(HDR_WORDS)] for k in range(3)]
+    return " ".join([w[0], w[1], inp["kind"], w[2]][(h >> 13) % 2:])
+
+
 def render_file(inp, wd, stem):
     fmt = inp["fmt"]
     lines = file_lines(inp)
@@ -162,7 +177,7 @@ def render_file(inp, wd, stem):
         head = []
     elif fmt == "fasta":
         body = ["".join(l) for l in lines]
-        head = [">test sequence %s" % inp["kind"]]
+        head = [">" + header_text(inp)]
     elif fmt == "ig":
         body = ["".join(l) for l in lines]
         ter = "2" if inp["circ"] else "1"
@@ -171,7 +186,7 @@ def render_file(inp, wd, stem):
         else:
             body[-1] += ter
         # the title line is part of the abstract input (arbitrary, mandatory; it never ends in 1 / 2)
-        head = ["; a comment", "; this is %s" % inp["kind"], "".join(_seq(inp.get("title")) or "title")]
+        head = ["; a comment", "; " + header_text(inp), "".join(_seq(inp.get("title")) or "title")]
     else:
         raise ValueError(fmt)
     text = "\n".join(head + body) + ("\n" if inp["nl"] else "")
